@@ -78,3 +78,9 @@ Proof. repeat split; reflexivity. Qed.
 From SymfcG Require Import SkelBasis SkelApi SkelCut SkelPerm.
 Theorem c07_module_skeletons_in_force : SkelBasis_as_recorded = true /\ SkelApi_as_recorded = true /\ SkelCut_as_recorded = true /\ SkelPerm_as_recorded = true.
 Proof. repeat split; reflexivity. Qed.
+
+(** The rest of the code path of this property's statement (the solvers that assemble the returned force constants from the basis) is the recorded source: whole-function / skeleton match,
+    regenerated on every run. *)
+From SymfcG Require Import ShapesSolvers SkelSolvers.
+Theorem c07_code_path_in_force : ShapesSolvers_as_recorded = true /\ SkelSolvers_as_recorded = true.
+Proof. repeat split; reflexivity. Qed.
